@@ -83,14 +83,18 @@ def run(F, rep, tier="quick", extra=None, only=None):
                         "white point tristimulus values are positive"]
     S = mk_session(F)
     # STIM-MAX: the assumption above
+    n_stim = 0
     for im, ms in impl_methods(F, "stimulus::Stimulus"):
-        if im["self_s"] in ("f32", "f64"):
+        # the float components get max_intensity from the blanket impl `impl<T: Real + One + Zero> Stimulus for T`
+        if im["self_s"] in ("f32", "f64") or (im["self_s"] in (im.get("generics") or []) and any("num::One" in p for p in im.get("preds", []))):
             b = ms.get("max_intensity")
+            n_stim += 1
             try:
                 v, _ = S.eval(b)
                 rep.ob("STIM-MAX", "max_intensity:" + im["self_s"], isinstance(v, RatFunc) and v.is_const() and v.const_value() == 1, repr(v), F.loc(b))
             except Opaque as ex:
                 rep.fail("STIM-MAX", "max_intensity:" + im["self_s"], str(ex), F.loc(b))
+    rep.floor("Stimulus impl covering the float components", n_stim, 1)
 
     wb = self_types(F, "IsWithinBounds")
     cl = self_types(F, "Clamp")
